@@ -27,14 +27,54 @@ type flowTracker struct {
 	params map[string]bool // fn+param index already tracked
 	// sanitizers: functions whose result does not alias their argument
 	depth int
+	// immutableElems: every element of the tracked container is an immutable value (a function,
+	// a number, a string): loading an element, or copying all of them into a fresh container
+	// (maps.Clone, a copy loop), then yields nothing through which shared memory can be changed
+	immutableElems bool
+	// shallow: values that are a fresh copy of the container (maps.Clone, slices.Clone,
+	// maps.Values) whose elements still are the shared, mutable element values: writing the copy
+	// itself is harmless, handing it out hands out the shared elements
+	shallow map[ssa.Value]bool
 }
 
 func newFlowTracker(c *Ctx) *flowTracker {
-	return &flowTracker{c: c, seen: map[ssa.Value]bool{}, params: map[string]bool{}}
+	return &flowTracker{c: c, seen: map[ssa.Value]bool{}, params: map[string]bool{}, shallow: map[ssa.Value]bool{}}
 }
 
 func (t *flowTracker) ev(kind, what string, ins ssa.Instruction) {
 	t.events = append(t.events, flowEvent{kind: kind, what: what, pos: ins.Pos(), fn: ins.Parent()})
+}
+
+// esc records that v leaves the package's control.
+func (t *flowTracker) esc(v ssa.Value, what string, ins ssa.Instruction) {
+	if t.shallow[v] {
+		what = "a shallow copy of it, whose elements still are the shared mutable values, is " + what
+	}
+	t.ev("escape", what, ins)
+}
+
+// trackFrom follows v, which designates the same storage as parent.
+func (t *flowTracker) trackFrom(parent, v ssa.Value) {
+	if t.shallow[parent] && v != nil && !t.seen[v] {
+		t.shallow[v] = true
+	}
+	t.track(v)
+}
+
+// trackShallow follows v, a fresh container filled with the elements of the tracked one.
+func (t *flowTracker) trackShallow(v ssa.Value) {
+	if v == nil || t.seen[v] {
+		return
+	}
+	t.shallow[v] = true
+	t.track(v)
+}
+
+// shallowCopyExt: external functions whose result is a fresh container holding the element
+// values of the argument (a copy one level deep).
+var shallowCopyExt = map[string]bool{
+	"maps.Clone": true, "slices.Clone": true, "golang.org/x/exp/maps.Clone": true, "golang.org/x/exp/slices.Clone": true,
+	"golang.org/x/exp/maps.Values": true,
 }
 
 // readOnlyExt: external functions that only read the memory of their
@@ -96,7 +136,7 @@ func (t *flowTracker) use(v ssa.Value, u ssa.Instruction) {
 	switch u := u.(type) {
 	case *ssa.DebugRef:
 	case *ssa.Phi, *ssa.ChangeType, *ssa.TypeAssert, *ssa.ChangeInterface, *ssa.SliceToArrayPointer:
-		t.track(u.(ssa.Value))
+		t.trackFrom(v, u.(ssa.Value))
 	case *ssa.Convert:
 		// conversions between slice and string copy; named-type conversions alias
 		if _, isStr := u.Type().Underlying().(*types.Basic); isStr {
@@ -104,19 +144,19 @@ func (t *flowTracker) use(v ssa.Value, u ssa.Instruction) {
 		} else if _, fromStr := u.X.Type().Underlying().(*types.Basic); fromStr {
 			t.ev("read", "converted (copy)", u)
 		} else {
-			t.track(u)
+			t.trackFrom(v, u)
 		}
 	case *ssa.Slice:
 		if u.X == v {
-			t.track(u)
+			t.trackFrom(v, u)
 		}
 	case *ssa.IndexAddr:
 		if u.X == v {
-			t.addr(u)
+			t.addrFrom(v, u)
 		}
 	case *ssa.FieldAddr:
 		if u.X == v {
-			t.addr(u)
+			t.addrFrom(v, u)
 		}
 	case *ssa.Field:
 		if isPointerLike(u.Type()) {
@@ -132,14 +172,16 @@ func (t *flowTracker) use(v ssa.Value, u ssa.Instruction) {
 			}
 		}
 	case *ssa.Index:
-		if u.X == v && isPointerLike(u.Type()) {
+		if u.X == v && isPointerLike(u.Type()) && !t.immutableElems {
 			t.track(u)
 		} else {
 			t.ev("read", "index", u)
 		}
 	case *ssa.Lookup:
 		if u.X == v {
-			if u.CommaOk {
+			if t.immutableElems {
+				// the elements give no access to shared mutable memory
+			} else if u.CommaOk {
 				t.trackExtract(u, 0)
 			} else if isPointerLike(u.Type()) {
 				t.track(u)
@@ -150,7 +192,7 @@ func (t *flowTracker) use(v ssa.Value, u ssa.Instruction) {
 		if u.X == v {
 			// Next → Extract(1)=key, Extract(2)=value
 			for _, r := range *u.Referrers() {
-				if nx, ok := r.(*ssa.Next); ok {
+				if nx, ok := r.(*ssa.Next); ok && !t.immutableElems {
 					t.trackExtract(nx, 2)
 				}
 			}
@@ -160,35 +202,39 @@ func (t *flowTracker) use(v ssa.Value, u ssa.Instruction) {
 		// handled by trackExtract
 	case *ssa.MapUpdate:
 		if u.Map == v {
-			t.ev("write", "map update", u)
+			if !t.shallow[v] {
+				t.ev("write", "map update", u)
+			}
 		} else if u.Value == v || u.Key == v {
-			t.ev("escape", "stored as a map element", u)
+			t.esc(v, "stored as a map element", u)
 		}
 	case *ssa.Store:
 		if u.Addr == v {
-			t.ev("write", "store", u)
+			if !t.shallow[v] {
+				t.ev("write", "store", u)
+			}
 		} else if u.Val == v {
 			if al, ok := u.Addr.(*ssa.Alloc); ok && !allocEscapes(al) {
 				// local variable: follow its loads
 				for _, r := range *al.Referrers() {
 					if ld, ok := r.(*ssa.UnOp); ok && ld.Op == token.MUL {
-						t.track(ld)
+						t.trackFrom(v, ld)
 					}
 				}
 			} else if al, ok := u.Addr.(*ssa.Alloc); ok {
 				// captured/escaping local: follow loads here and in closures
-				t.trackCell(al)
+				t.trackCell(v, al)
 			} else {
-				t.ev("escape", "stored into "+describeAddr(u.Addr), u)
+				t.esc(v, "stored into "+describeAddr(u.Addr), u)
 			}
 		}
 	case *ssa.MakeInterface:
-		t.iface(u)
+		t.iface(v, u)
 	case *ssa.MakeClosure:
 		fn := u.Fn.(*ssa.Function)
 		for i, b := range u.Bindings {
 			if b == v && i < len(fn.FreeVars) {
-				t.track(fn.FreeVars[i])
+				t.trackFrom(v, fn.FreeVars[i])
 			}
 		}
 	case *ssa.Return:
@@ -200,18 +246,18 @@ func (t *flowTracker) use(v ssa.Value, u ssa.Instruction) {
 			}
 		}
 		if exportedAPI(fn) {
-			t.ev("escape", "returned from exported "+t.c.fname(fn), u)
+			t.esc(v, "returned from exported "+t.c.fname(fn), u)
 		} else {
-			t.results(fn, idx)
+			t.results(v, fn, idx)
 		}
 	case *ssa.BinOp, *ssa.If:
 		t.ev("read", "compare", u)
 	case *ssa.Send:
-		t.ev("escape", "sent on a channel", u)
+		t.esc(v, "sent on a channel", u)
 	case ssa.CallInstruction:
 		t.call(v, u)
 	default:
-		t.ev("escape", fmt.Sprintf("used by %T", u), u)
+		t.esc(v, fmt.Sprintf("used by %T", u), u)
 	}
 }
 
@@ -244,18 +290,18 @@ func allocEscapes(al *ssa.Alloc) bool {
 	return false
 }
 
-func (t *flowTracker) trackCell(al *ssa.Alloc) {
+func (t *flowTracker) trackCell(v ssa.Value, al *ssa.Alloc) {
 	for _, r := range *al.Referrers() {
 		switch r := r.(type) {
 		case *ssa.UnOp:
-			t.track(r)
+			t.trackFrom(v, r)
 		case *ssa.MakeClosure:
 			fn := r.Fn.(*ssa.Function)
 			for i, b := range r.Bindings {
 				if b == al && i < len(fn.FreeVars) {
 					for _, fr := range *fn.FreeVars[i].Referrers() {
 						if ld, ok := fr.(*ssa.UnOp); ok {
-							t.track(ld)
+							t.trackFrom(v, ld)
 						}
 					}
 				}
@@ -285,28 +331,42 @@ func (t *flowTracker) trackExtract(tuple ssa.Value, idx int) {
 	}
 }
 
+// addrFrom: a is an address inside the storage designated by parent.
+func (t *flowTracker) addrFrom(parent, a ssa.Value) {
+	if t.shallow[parent] && !t.seen[a] {
+		t.shallow[a] = true
+	}
+	t.addr(a)
+}
+
 // addr: a is an address inside the storage.
 func (t *flowTracker) addr(a ssa.Value) {
 	if t.seen[a] {
 		return
 	}
 	t.seen[a] = true
+	_, isElem := a.(*ssa.IndexAddr)
 	for _, u := range *a.Referrers() {
 		switch u := u.(type) {
 		case *ssa.Store:
 			if u.Addr == a {
-				t.ev("write", "store to "+describeAddr(a), u)
+				if !t.shallow[a] {
+					t.ev("write", "store to "+describeAddr(a), u)
+				}
 			} else {
-				t.ev("escape", "address stored", u)
+				t.esc(a, "address stored", u)
 			}
 		case *ssa.UnOp:
-			if isPointerLike(u.Type()) || isAggregateWithRefs(u.Type()) {
+			if isElem && t.immutableElems {
+				t.ev("read", "load", u)
+			} else if isPointerLike(u.Type()) || isAggregateWithRefs(u.Type()) {
+				// the element values of a shallow copy are the shared ones
 				t.track(u)
 			} else {
 				t.ev("read", "load", u)
 			}
 		case *ssa.IndexAddr, *ssa.FieldAddr:
-			t.addr(u.(ssa.Value))
+			t.addrFrom(a, u.(ssa.Value))
 		case *ssa.DebugRef:
 		case ssa.CallInstruction:
 			t.call(a, u)
@@ -317,26 +377,26 @@ func (t *flowTracker) addr(a ssa.Value) {
 }
 
 // iface: the storage reference was boxed into an interface value.
-func (t *flowTracker) iface(mi *ssa.MakeInterface) {
+func (t *flowTracker) iface(v ssa.Value, mi *ssa.MakeInterface) {
 	for _, u := range *mi.Referrers() {
 		switch u := u.(type) {
 		case *ssa.BinOp, *ssa.DebugRef:
 		case ssa.CallInstruction:
-			if sc := u.Common().StaticCallee(); sc != nil && readOnlyExt[extName(sc)] {
+			if sc := u.Common().StaticCallee(); sc != nil && readOnlyExt[extName(sc)] && !shallowCopyExt[extName(sc)] {
 				continue
 			}
-			t.ev("escape", "boxed into an interface and passed to a call", u)
+			t.esc(v, "boxed into an interface and passed to a call", u)
 		case *ssa.Slice, *ssa.IndexAddr:
 			// variadic packing for a call: look at the user of the slice
-			t.ev("escape", "boxed into an interface (variadic)", u)
+			t.esc(v, "boxed into an interface (variadic)", u)
 		default:
-			t.ev("escape", fmt.Sprintf("boxed into an interface value (%T)", u), u)
+			t.esc(v, fmt.Sprintf("boxed into an interface value (%T)", u), u)
 		}
 	}
 }
 
 // results: fn returns the reference as result idx; continue at call sites.
-func (t *flowTracker) results(fn *ssa.Function, idx int) {
+func (t *flowTracker) results(v ssa.Value, fn *ssa.Function, idx int) {
 	if fn.Parent() != nil {
 		// closure: call sites are calls of the closure value; be conservative
 		t.events = append(t.events, flowEvent{kind: "escape", what: "returned from a closure", pos: fn.Pos(), fn: fn})
@@ -350,9 +410,13 @@ func (t *flowTracker) results(fn *ssa.Function, idx int) {
 					continue
 				}
 				if fn.Signature.Results().Len() == 1 {
-					t.track(call)
+					t.trackFrom(v, call)
 				} else {
-					t.trackExtract(call, idx)
+					for _, r := range *call.Referrers() {
+						if ex, ok := r.(*ssa.Extract); ok && ex.Index == idx && (isPointerLike(ex.Type()) || isAggregateWithRefs(ex.Type())) {
+							t.trackFrom(v, ex)
+						}
+					}
 				}
 			}
 		}
@@ -373,21 +437,27 @@ func (t *flowTracker) call(v ssa.Value, ins ssa.CallInstruction) {
 			t.ev("read", b.Name(), ins)
 		case "append":
 			if argIdx == 0 {
-				t.ev("write", "append to the shared slice (may write into spare capacity)", ins)
+				if !t.shallow[v] {
+					t.ev("write", "append to the shared slice (may write into spare capacity)", ins)
+				}
 				if val, ok := ins.(ssa.Value); ok {
-					t.track(val)
+					t.trackFrom(v, val)
 				}
 			} else {
 				t.ev("read", "appended from", ins)
 			}
 		case "copy":
 			if argIdx == 0 {
-				t.ev("write", "copy into", ins)
+				if !t.shallow[v] {
+					t.ev("write", "copy into", ins)
+				}
 			} else {
 				t.ev("read", "copy from", ins)
 			}
 		case "delete", "clear":
-			t.ev("write", b.Name(), ins)
+			if !t.shallow[v] {
+				t.ev("write", b.Name(), ins)
+			}
 		default:
 			t.ev("read", b.Name(), ins)
 		}
@@ -398,7 +468,7 @@ func (t *flowTracker) call(v ssa.Value, ins ssa.CallInstruction) {
 			t.ev("safe-call", "method "+com.Method.Name(), ins)
 			return
 		}
-		t.ev("escape", "passed to interface method "+com.Method.Name(), ins)
+		t.esc(v, "passed to interface method "+com.Method.Name(), ins)
 		return
 	}
 	callee := com.StaticCallee()
@@ -407,7 +477,7 @@ func (t *flowTracker) call(v ssa.Value, ins ssa.CallInstruction) {
 			t.ev("read", "called", ins)
 			return
 		}
-		t.ev("escape", "passed to a dynamically dispatched call", ins)
+		t.esc(v, "passed to a dynamically dispatched call", ins)
 		return
 	}
 	if argIdx < 0 {
@@ -415,6 +485,14 @@ func (t *flowTracker) call(v ssa.Value, ins ssa.CallInstruction) {
 	}
 	if !t.c.inModule(callee) || callee.Blocks == nil {
 		name := extName(callee)
+		if shallowCopyExt[name] && !t.immutableElems && !staticElemsImmutable(v.Type()) {
+			// one level is copied: the new container holds the same (mutable) element values
+			t.ev("read", "passed to "+name+" (shallow copy)", ins)
+			if val, ok := ins.(ssa.Value); ok {
+				t.trackShallow(val)
+			}
+			return
+		}
 		if readOnlyExt[name] {
 			t.ev("read", "passed to "+name, ins)
 			return
@@ -434,7 +512,7 @@ func (t *flowTracker) call(v ssa.Value, ins ssa.CallInstruction) {
 			t.ev("read", "passed to "+name, ins)
 			return
 		}
-		t.ev("escape", "passed to "+name, ins)
+		t.esc(v, "passed to "+name, ins)
 		return
 	}
 	// module function: follow the parameter
@@ -444,7 +522,7 @@ func (t *flowTracker) call(v ssa.Value, ins ssa.CallInstruction) {
 	}
 	t.params[key] = true
 	if argIdx < len(callee.Params) {
-		t.track(callee.Params[argIdx])
+		t.trackFrom(v, callee.Params[argIdx])
 	}
 }
 
@@ -463,4 +541,150 @@ func joinMax(l []string, n int) string {
 		return strings.Join(l[:n], "; ") + fmt.Sprintf("; … (%d more)", len(l)-n)
 	}
 	return strings.Join(l, "; ")
+}
+
+// ---- are the elements of a shared container immutable values?
+
+// staticElemsImmutable: by its type alone, a container of type T cannot hold references to
+// mutable memory (keys and elements are numbers, strings, structs of such).
+func staticElemsImmutable(T types.Type) bool {
+	plain := func(t types.Type) bool { return !isPointerLike(t) && !isAggregateWithRefs(t) }
+	switch u := T.Underlying().(type) {
+	case *types.Map:
+		return plain(u.Key()) && plain(u.Elem())
+	case *types.Slice:
+		return plain(u.Elem())
+	case *types.Array:
+		return plain(u.Elem())
+	case *types.Pointer:
+		if a, ok := u.Elem().Underlying().(*types.Array); ok {
+			return plain(a.Elem())
+		}
+	}
+	return false
+}
+
+// immutableValue: x gives no access to memory that can be modified: a constant, a value of a
+// type without references, a top-level function (not a closure), or such a value boxed.
+func immutableValue(x ssa.Value) bool {
+	switch x := x.(type) {
+	case *ssa.Const, *ssa.Function:
+		return true
+	case *ssa.ChangeType:
+		return immutableValue(x.X)
+	case *ssa.MakeInterface:
+		return immutableValue(x.X)
+	}
+	return !isPointerLike(x.Type()) && !isAggregateWithRefs(x.Type())
+}
+
+// elemsImmutable: every element ever put into the container v is an immutable value.  Decided
+// by the element type or, for interface and function elements, by inspecting every store into
+// the fresh container (v is followed to its allocation through phis, module helpers that return
+// it, and package-level variables, all of whose assignments are inspected).
+func (c *Ctx) elemsImmutable(v ssa.Value, seen map[ssa.Value]bool) bool {
+	if staticElemsImmutable(v.Type()) {
+		return true
+	}
+	if seen[v] {
+		return true // a cycle adds no new store
+	}
+	if len(seen) > 64 {
+		return false
+	}
+	seen[v] = true
+	switch v := v.(type) {
+	case *ssa.MakeMap:
+		for _, r := range *v.Referrers() {
+			switch r := r.(type) {
+			case *ssa.MapUpdate:
+				if r.Map != v || !immutableValue(r.Value) || !immutableValue(r.Key) {
+					return false
+				}
+			case *ssa.Store:
+				if _, toGlobal := r.Addr.(*ssa.Global); !toGlobal || r.Val != v {
+					return false
+				}
+			case *ssa.DebugRef, *ssa.Lookup, *ssa.Range, *ssa.Return:
+			case ssa.CallInstruction:
+				if b, ok := r.Common().Value.(*ssa.Builtin); !ok || (b.Name() != "len") {
+					return false
+				}
+			default:
+				return false
+			}
+		}
+		return true
+	case *ssa.Slice:
+		al, ok := v.X.(*ssa.Alloc)
+		if !ok {
+			return false
+		}
+		for _, r := range *al.Referrers() {
+			switch r := r.(type) {
+			case *ssa.IndexAddr:
+				for _, rr := range *r.Referrers() {
+					if st, ok := rr.(*ssa.Store); !ok || st.Addr != r || !immutableValue(st.Val) {
+						return false
+					}
+				}
+			case *ssa.Slice, *ssa.DebugRef:
+			default:
+				return false
+			}
+		}
+		return true
+	case *ssa.Phi:
+		for _, e := range v.Edges {
+			if !c.elemsImmutable(e, seen) {
+				return false
+			}
+		}
+		return true
+	case *ssa.Call:
+		callee := v.Common().StaticCallee()
+		if callee == nil || callee.Blocks == nil || !c.inModule(callee) || callee.Signature.Results().Len() != 1 {
+			return false
+		}
+		return c.resultElemsImmutable(callee, seen)
+	case *ssa.UnOp:
+		if g, ok := v.X.(*ssa.Global); ok && v.Op == token.MUL {
+			return c.globalElemsImmutable(g, seen)
+		}
+	}
+	return false
+}
+
+// resultElemsImmutable: the (single) result of fn is a container with immutable elements.
+func (c *Ctx) resultElemsImmutable(fn *ssa.Function, seen map[ssa.Value]bool) bool {
+	n := 0
+	for _, r := range returns(fn) {
+		if len(r.Results) != 1 || !c.elemsImmutable(r.Results[0], seen) {
+			return false
+		}
+		n++
+	}
+	return n > 0
+}
+
+// globalElemsImmutable: every value ever assigned to package-level g is a container with
+// immutable elements (element writes through g are reported by ISO-SHARED on their own).
+func (c *Ctx) globalElemsImmutable(g *ssa.Global, seen map[ssa.Value]bool) bool {
+	if staticElemsImmutable(g.Type().(*types.Pointer).Elem()) {
+		return true
+	}
+	n := 0
+	for _, fn := range c.modFuncs {
+		for _, b := range fn.Blocks {
+			for _, ins := range b.Instrs {
+				if st, ok := ins.(*ssa.Store); ok && st.Addr == g {
+					n++
+					if !c.elemsImmutable(st.Val, seen) {
+						return false
+					}
+				}
+			}
+		}
+	}
+	return n > 0
 }
